@@ -119,6 +119,56 @@ async def reader_cancel_sweep(flavor, seg, cnt, v, sigs):
             sigs.add(f"reader-cancel|{flavor}|{seg}|{style}|{k}")
 
 
+async def early_answer_sweep(flavor, ctype, cnt, v, sigs):
+    """The server answers a POST as soon as it has the head - a complete, keep-alive response - and one write of the
+    request fails without the connection dying (a peer that stopped listening): for every write of the request in turn.
+    The exchange did not finish in the request direction, so whatever the POST's outcome the connection must not carry
+    the follow-up request; the follow-up gets its own answer."""
+    from . import c14
+    from ..scenarios import Sc
+    from ..world import guarded
+    from .. import simnet
+
+    async def one(fault_at, shape):
+        sc = Sc(ctype, flavor, max_connections=2, resp_delay=0.0)
+        sc.net.op_budget = 3000
+        for o in sc.origins:
+            o.early = True
+        if fault_at is not None:
+            sc.net.faults[fault_at] = "WriteErrorSoft"
+        simnet.CALL.set("p")
+        out1 = await guarded(flavor, lambda: c14.one_call(sc, shape, "p"))
+        ops_p = [(i, k) for i, k, tr, call in sc.net.ops if call == "p"]
+        simnet.CALL.set("f")
+        out2 = await guarded(flavor, lambda: c14.one_call(sc, "get", "f"))
+        heads = c14.heads_by_token(sc)
+        await guarded(flavor, sc.api.close_pool)
+        return sc, out1, out2, ops_p, heads
+
+    for shape in ("post-bytes", "post-iter"):
+        sc, out1, out2, ops_p, heads = await one(None, shape)
+        if out1.kind != "ok" or out2.kind != "ok":
+            v("early-answer:baseline-failed", f"{out1!r} {out2!r}", {"flavor": flavor, "ctype": ctype, "shape": shape})
+            continue
+        for idx in [i for i, k in ops_p if k == "write"]:
+            sc, out1, out2, ops_p_, heads = await one(idx, shape)
+            cnt["early_answer_runs"] += 1
+            cnt["early_answer_faults_fired"] += 1 if sc.net.fault_fired else 0
+            ctx = {"flavor": flavor, "ctype": ctype, "shape": shape, "write_fault_at_op": idx, "post": repr(out1), "followup": repr(out2)}
+            sigs.add(f"early-answer|{flavor}|{ctype}|{shape}|{idx}|{out1.kind}")
+            p_reqs = heads.get("p", [])
+            f_reqs = heads.get("f", [])
+            unfinished = [r for r in p_reqs if not r.complete]
+            if out2.kind != "ok":
+                v("desync:followup-after-unfinished-exchange-failed", f"the follow-up request ended {out2!r} (the POST, whose write at op "
+                  f"{idx} failed, ended {out1!r}; its request was {'not ' if unfinished else ''}complete at the server)", ctx)
+            elif unfinished and f_reqs and any(r.tr == unfinished[0].tr for r in f_reqs):
+                v("desync:connection-reused-after-unfinished-request", f"transport {unfinished[0].tr} carried the follow-up although "
+                  f"the POST on it never finished", ctx)
+            elif not f_reqs:
+                v("desync:followup-never-reached-the-origin", f"{out2!r}", ctx)
+
+
 def run_case(case):
     viol = []
     cnt = {"workloads": 0, "responses_checked": 0, "oracle_wire_requests": 0, "reused_connections": 0,
@@ -132,6 +182,11 @@ def run_case(case):
             viol.append({"key": key, "what": what, "detail": detail})
 
     async def main():
+        if case.get("kind") == "early-answer":
+            for key in ("early_answer_runs", "early_answer_faults_fired"):
+                cnt[key] = 0
+            await early_answer_sweep(case["flavor"], case["ctype"], cnt, v, sigs)
+            return
         if case.get("kind") == "reader-cancel":
             for key in ("reader_cancel_runs", "reader_cancel_other_ok", "reader_cancel_other_failed"):
                 cnt[key] = 0
@@ -197,6 +252,9 @@ def plan(tier, seed):
             # of their own per request; the origin reports the Host / :authority it was asked for
             sp["vhosts"] = sp["seed"] % 2 == 0
         cases.append({"flavor": flavor, "specs": specs, "seed": r.randrange(1 << 30)})
+    for flavor in ("asyncio", "trio", "sync"):
+        for ctype in (("h1", "fwd") if tier == "quick" else ("h1", "h1tls", "fwd", "tun", "socks")):
+            cases.append({"kind": "early-answer", "flavor": flavor, "ctype": ctype, "seed": 1})
     for flavor in ("asyncio", "trio"):
         for seg in ((300, 900, "all") if tier == "quick" else (300, 900, 1400, 5000, "all")):
             cases.append({"kind": "reader-cancel", "flavor": flavor, "seg": seg, "seed": 1})
